@@ -207,13 +207,73 @@ fn concurrent_ids_unit(name: &'static str, progs: Vec<Vec<crate::litmus::COp>>, 
     explore_unit(format!("sched/{}", name), desc, Bounds::new(d), ExecCfg::default(), f)
 }
 
+/// Fields of a published message that only the server may decide (id, publish time) are set by the client - e.g. a
+/// received message re-published verbatim.  Ids stay unique; what is delivered carries the id Publish returned.
+fn client_fields_unit() -> Unit {
+    let f: ScenFn = scen!(|cx| {
+        let a = cx.api.clone();
+        must!(cx, "setup:create-topic", { let a = a.clone(); async move { a.create_topic(T0).await } });
+        must!(cx, "setup:create-topic", { let a = a.clone(); async move { a.create_topic(T1).await } });
+        must!(cx, "setup:create-sub", { let a = a.clone(); async move { a.create_sub(S0, T0, 10, None).await } });
+        must!(cx, "setup:create-sub", { let a = a.clone(); async move { a.create_sub(S1, T1, 10, None).await } });
+        let first = must!(cx, "setup:publish", { let a = a.clone(); async move { a.publish(T0, vec![(b"orig".to_vec(), vec![])]).await } });
+        let got = must!(cx, "setup:pull", { let a = a.clone(); async move { a.pull(S0, 1, true).await } });
+        let which = cx.choose("client-set-id", 7);
+        let target = [T0, T1][cx.choose("target-topic", 2)];
+        let id_field = match which {
+            0 => first[0].clone(),
+            1 => "1".to_string(),
+            2 => "0".to_string(),
+            3 => "18446744073709551615".to_string(),
+            4 => "not-a-number".to_string(),
+            5 => format!("{}", first[0].parse::<u64>().unwrap_or(0) + 1),
+            _ => String::new(),
+        };
+        let msg = deltio::pubsub_proto::PubsubMessage {
+            data: b"republished".to_vec(),
+            message_id: id_field.clone(),
+            publish_time: Some(deltio::pubsub_proto::PubsubMessage::default().publish_time.unwrap_or_default()),
+            ordering_key: "key".into(),
+            attributes: [("origin".to_string(), got[0].msg_id.clone())].into_iter().collect(),
+        };
+        let m2 = msg.clone();
+        let r = tryv!(cx.settle("client:publish-raw", { let a = a.clone(); async move { a.publish_raw(target, vec![m2.clone(), m2]).await } }).await);
+        let ids = match r { Ok(v) => v, Err(c) => return ScenarioOut::viol("client-fields/publish-failed", format!("Publish with message_id={:?} failed with {:?}", id_field, c)) };
+        let mut all: Vec<String> = first.clone();
+        all.extend(ids.clone());
+        // a further ordinary publish on each topic
+        for t in [T0, T1] {
+            let r = must!(cx, "client:publish", { let a = a.clone(); async move { a.publish(t, vec![(b"later".to_vec(), vec![])]).await } });
+            all.extend(r);
+        }
+        let mut uniq = all.clone();
+        uniq.sort();
+        uniq.dedup();
+        if uniq.len() != all.len() {
+            return ScenarioOut::viol("client-fields/duplicate-message-id", format!("publishing a message whose message_id field was set to {:?} by the client: ids returned so far {:?}", id_field, all));
+        }
+        let sub = if target == T0 { S0 } else { S1 };
+        let got2 = must!(cx, "client:pull", { let a = a.clone(); async move { a.pull(sub, 10, true).await } });
+        for id in &ids {
+            match got2.iter().find(|m| m.msg_id == *id) {
+                None => return ScenarioOut::viol("client-fields/returned-id-not-delivered", format!("Publish returned id {} but the subscription delivered {:?}", id, got2.iter().map(|m| m.msg_id.clone()).collect::<Vec<_>>())),
+                Some(m) if m.data != b"republished" => return ScenarioOut::viol("client-fields/data-mismatch", format!("id {} delivered with other data", id)),
+                _ => {}
+            }
+        }
+        ScenarioOut { sample: Some(format!("message_id={:?} -> {}", id_field, target)), ..ScenarioOut::ok(format!("which={}", which)) }
+    });
+    explore_unit("input/client-set-fields", "Publish requests whose messages carry a client-chosen message_id (an id issued earlier, 1, 0, u64::MAX, garbage, next id, empty), publish_time and ordering_key, to the same and to another topic: ids stay pairwise distinct, the delivered id is the returned one", Bounds::new(0), ExecCfg { points_on: false, ..Default::default() }, f)
+}
+
 pub fn units(thorough: bool) -> Vec<Unit> {
     use crate::litmus::COp::*;
     let _ = must_use();
-    let d = if thorough { 4 } else { 3 };
+    let d = if thorough { 6 } else { 3 };
     vec![
         integrity_unit(),
-        ids_unit(if thorough { 8 } else { 6 }),
+        client_fields_unit(),
+        ids_unit(if thorough { 9 } else { 6 }),
         concurrent_ids_unit("create‖create;publish", vec![vec![CreateTopic(T0), Publish(T0, 2)], vec![CreateTopic(T1), Publish(T1, 2)]], false, d),
         concurrent_ids_unit("delete;create‖create;publish", vec![vec![DeleteTopic(T0), CreateTopic(T0), Publish(T0, 1)], vec![CreateTopic(T1), Publish(T1, 1)], vec![Publish(T0, 1)]], true, d),
         concurrent_ids_unit("delete‖publish‖publish", vec![vec![DeleteTopic(T0)], vec![Publish(T0, 1), Publish(T0, 2)], vec![Publish(T0, 1)]], true, d),
